@@ -181,7 +181,7 @@ def main(ck):
         return replay(ck)
     pr = ck.proof('C03')
     q = ck.quick()
-    n_main = int(os.environ.get('VERIF_N', 0)) or (200 if q else 4000)
+    n_main = int(os.environ.get('VERIF_N', 0)) or (200 if q else 3000)
     g = GA.AggrGen(ck.rng)
     main_cases = [g.case() for _ in range(n_main)]
     side = [g.rejected_having([0.1, 0.4, 0.55, 0.65, 0.9][i % 5]) for i in range(10 if q else 50)] + [g.group_all() for _ in range(10 if q else 80)] + [g.group_all_time() for _ in range(16 if q else 200)]
@@ -252,7 +252,14 @@ def main(ck):
         'count(DS …) counts the datapoints whose measures are ALL non-null; count() in a clause those with SOME non-null measure',
         'median of an even number of values is the mean of the two middle values',
         'var_samp / stddev_samp of a single value is null'])
-    for key, lst in groups.items():
+    # known findings first, then the most frequent disagreements; at most 12 replays per run, the rest is listed in the evidence
+    known_keys = {k.get('key') for k in ck.known}
+    order = sorted(groups, key=lambda k: (k not in known_keys, -len(groups[k]), k))
+    fresh = [k for k in order if k not in known_keys]
+    if len(fresh) > 12:
+        ck.note('further_disagreement_keys', {k: len(groups[k]) for k in fresh[12:]})
+    for key in [k for k in order if k in known_keys] + fresh[:12]:
+        lst = groups[key]
         lst.sort(key=lambda x: (x[0], x[1]))
         _, _, c, v, d, e, a = lst[0]
         ck.violation(key, {'script': c['vtl'], 'structures': G.structures(c['env']),
